@@ -25,15 +25,30 @@ Leaves == IF LeafSet = "tiny" THEN TinyLeaves ELSE IF LeafSet = "small" THEN Sma
 Fns    == IF FnSet = "one" THEN {"sin"} ELSE Functions
 Prefixes == {"neg", "pos"}
 
+\* Leaves whose spelling collides - exactly or up to letter case - with a reserved word of the expression
+\* grammar (the five functions, pi, i), in every form the unchanged parser round-trips (all of them do:
+\* name[index] is tried before the reserved words, %name is a different token).  They decide which
+\* alternative of parse_expression_identifier is tried first.  Plus the bare imaginary unit (2*1.0i vs 2.0i)
+\* and a non-zero index.  These leaves enter only as the start of a tree (once per tree), with ordinary
+\* leaves as siblings: every context of depth 1, and depth 2 under negation and a function call.
+ReservedNames == {"sin", "Sin", "SIN", "cos", "cis", "exp", "sqrt", "pi", "PI", "Pi", "i", "I"}
+ExtraLeaves == { Addr(nm, 0) : nm \in ReservedNames } \cup { Var(nm) : nm \in ReservedNames }
+               \cup { Addr("exp", 1), Addr("Sin", 1), Addr("pi", 1), Addr("i", 1), Addr("m", 1), Num("0", "1") }
+RECURSIVE HasExtra(_)
+HasExtra(e) == CASE IsLeaf(e) -> e \in ExtraLeaves
+                 [] e.t \in {"neg", "pos", "fn"} -> HasExtra(e.e)
+                 [] e.t = "inf" -> HasExtra(e.l) \/ HasExtra(e.r)
+
 D1 == Leaves \cup Wrap(Leaves, InfixOps, Fns, Prefixes)
 Siblings(e) == IF Depth(e) = 0 THEN Leaves ELSE IF FullDepth2 THEN D1 ELSE Leaves
 
-Init == \E e \in Leaves : Fresh(e)
+Init == \E e \in Leaves \cup ExtraLeaves : Fresh(e)
 Grow == /\ phase = "gen" /\ Depth(tree) < MaxDepth
-        /\ \/ \E o \in InfixOps, b \in Siblings(tree) : tree' = Inf(tree, o, b)
-           \/ \E o \in InfixOps, b \in Siblings(tree) : tree' = Inf(b, o, tree)
-           \/ \E f \in Fns : tree' = Fn(f, tree)
-           \/ \E p \in Prefixes : tree' = [t |-> p, e |-> tree]
+        /\ LET narrow == Depth(tree) > 0 /\ HasExtra(tree) IN
+           \/ \E o \in InfixOps, b \in Siblings(tree) : ~narrow /\ tree' = Inf(tree, o, b)
+           \/ \E o \in InfixOps, b \in Siblings(tree) : ~narrow /\ tree' = Inf(b, o, tree)
+           \/ \E f \in Fns : (narrow => f = "sin") /\ tree' = Fn(f, tree)
+           \/ \E p \in Prefixes : (narrow => p = "neg") /\ tree' = [t |-> p, e |-> tree]
         /\ UNCHANGED <<phase, pieces, result>>
 Next == Grow \/ ToQuil \/ FromStr
 Spec == Init /\ [][Next]_vars
